@@ -434,7 +434,7 @@ fn run_base_inner(slots: &mut Vec<Option<Unimock>>, unwinding: bool, base: &Base
                 return "invalid".into();
             }
             let u = slots[i].take().unwrap();
-            #[cfg(feature = "std-build")]
+            #[cfg(any(feature = "std-build", feature = "plain-build"))]
             {
                 use std::process::{ExitCode, Termination};
                 obs(
@@ -452,7 +452,7 @@ fn run_base_inner(slots: &mut Vec<Option<Unimock>>, unwinding: bool, base: &Base
                     },
                 )
             }
-            #[cfg(not(feature = "std-build"))]
+            #[cfg(not(any(feature = "std-build", feature = "plain-build")))]
             {
                 drop(u);
                 "unsupported".into()
